@@ -153,6 +153,20 @@ class Run:
         bad = grep_gate([os.path.join(COQ, s) for s in static_sources()] +
                         [os.path.join(COQ, d, f) for d in ('Dyn', 'Props') for f in sorted(os.listdir(os.path.join(COQ, d))) if f.endswith('.v')])
         self.oblige('gate:no-admit-axiom', not bad, '; '.join(bad))
+        if ok and self.tier == 'thorough':
+            # independent re-check of the compiled static libraries, with the axioms they rely on (expected: none)
+            mods = []
+            for d, n in NS:
+                p = os.path.join(COQ, d)
+                if os.path.isdir(p):
+                    mods += ['%s.%s' % (n, f[:-2]) for f in sorted(os.listdir(p)) if f.endswith('.v')]
+            fl = []
+            for d, n in NS:
+                if os.path.isdir(os.path.join(COQ, d)): fl += ['-Q', d, n]
+            rc, out = sh(['timeout', '1500', 'coqchk', '-silent', '-o'] + fl + mods, timeout=1600, cwd=COQ)
+            okc = rc == 0 and '* Axioms: <none>' in out and 'type-in-type: <none>' in out
+            self.oblige('coqchk:static', okc, '' if okc else out[-1500:])
+            self.axioms.append('coqchk -o on the static libraries: ' + ('Axioms: <none>; no type-in-type, unsafe fixpoints or assumed positivity' if okc else 'FAILED'))
         return ok
 
     def generate(self, name, argv, outfile):
